@@ -21,6 +21,9 @@ enum In {
     WriteB,
     Patch,
     CheckpointCreate,
+    /// a mutating tool call that ends in tool_failed: write with timeout_ms 0 (the timeout fires at
+    /// the first poll; the call still counts as a workspace mutation and is logged as one)
+    WriteTimeout0,
     Read,
     Ls,
 }
@@ -31,6 +34,7 @@ fn input(i: In) -> String {
         In::WriteB => json!({"tool": "write", "args": {"path": "b.txt", "content": "B"}}).to_string(),
         In::Patch => json!({"tool": "apply_patch", "args": {"patch": "*** Begin Patch\n*** Add File: p.txt\n+p\n*** End Patch"}}).to_string(),
         In::CheckpointCreate => json!({"checkpoint": {"action": "create", "label": "l", "files": ["a.txt"]}}).to_string(),
+        In::WriteTimeout0 => json!({"tool": "write", "args": {"path": "t.txt", "content": "T"}, "timeout_ms": 0}).to_string(),
         In::Read => json!({"tool": "read", "args": {"path": "seed.txt"}}).to_string(),
         In::Ls => json!({"tool": "ls", "args": {}}).to_string(),
     }
@@ -41,7 +45,7 @@ fn mutating(i: In) -> bool {
 }
 
 fn logs_side_effects(i: In) -> bool {
-    matches!(i, In::WriteA | In::WriteB | In::Patch)
+    matches!(i, In::WriteA | In::WriteB | In::Patch | In::WriteTimeout0)
 }
 
 struct World {
@@ -50,7 +54,7 @@ struct World {
     sessions: Vec<String>,
 }
 
-const FILTER: [&str; 9] = ["start", "ws.lock", "ws.guard.*", "tool.handler.*", "tool.semaphore", "cont.next_seq", "cont.publish", "sess.publish", "log.appended"];
+const FILTER: [&str; 10] = ["start", "ws.lock", "ws.guard.*", "tool.handler.*", "ckpt.action.*", "tool.semaphore", "cont.next_seq", "cont.publish", "sess.publish", "log.appended"];
 
 fn make_world(rt: &Arc<tokio::runtime::Runtime>, inputs: &[In]) -> (World, Vec<ActorBody>) {
     let fx = Fx::new(rt.clone());
@@ -113,6 +117,10 @@ fn check_exec(report: &Report, inputs: &[In], world: &World, exec: &Exec, saw_ov
             ("ws.guard", false) => open_guards.retain(|a| *a != s.actor),
             ("tool.handler", true) => {
                 let ro = matches!(s.label.as_str(), "read" | "ls" | "grep" | "artifact_fetch");
+                if !ro && !open_guards.contains(&s.actor) {
+                    report.violation(&format!("C11:mutation_outside_workspace_guard:{}:{label}", s.label), case(), &format!("actor {} runs {} while it does not hold the workspace guard (holders: {:?})", s.actor, s.label, open_guards));
+                    return;
+                }
                 if !ro && open_handlers.iter().any(|(_, l)| !matches!(l.as_str(), "read" | "ls" | "grep" | "artifact_fetch")) {
                     report.violation(&format!("C11:mutating_tools_overlap:{label}"), case(), &format!("{} started while {:?} is running", s.label, open_handlers));
                     return;
@@ -123,6 +131,19 @@ fn check_exec(report: &Report, inputs: &[In], world: &World, exec: &Exec, saw_ov
                 open_handlers.push((s.actor, s.label.clone()));
             }
             ("tool.handler", false) => open_handlers.retain(|(a, _)| *a != s.actor),
+            ("ckpt.action", true) => {
+                // a checkpoint create / rewind reads or rewrites workspace files: it is a mutator
+                if !open_guards.contains(&s.actor) {
+                    report.violation(&format!("C11:mutation_outside_workspace_guard:checkpoint:{label}"), case(), &format!("actor {} runs checkpoint {} while it does not hold the workspace guard (holders: {:?})", s.actor, s.label, open_guards));
+                    return;
+                }
+                if open_handlers.iter().any(|(a, l)| *a != s.actor && !matches!(l.as_str(), "read" | "ls" | "grep" | "artifact_fetch")) {
+                    report.violation(&format!("C11:mutating_tools_overlap:{label}"), case(), &format!("checkpoint {} started while {:?} is running", s.label, open_handlers));
+                    return;
+                }
+                open_handlers.push((s.actor, format!("checkpoint_{}", s.label)));
+            }
+            ("ckpt.action", false) => open_handlers.retain(|(a, _)| *a != s.actor),
             _ => {}
         }
     }
@@ -197,7 +218,7 @@ fn run_config(report: &Report, inputs: &[In], bound: usize) {
 }
 
 pub fn replay(report: &Report, case: &Value) {
-    let all = [In::WriteA, In::WriteB, In::Patch, In::CheckpointCreate, In::Read, In::Ls];
+    let all = [In::WriteA, In::WriteB, In::Patch, In::CheckpointCreate, In::WriteTimeout0, In::Read, In::Ls];
     let inputs: Vec<In> = case["inputs"].as_array().map(|a| a.iter().filter_map(|v| all.iter().copied().find(|i| format!("{i:?}") == v.as_str().unwrap_or(""))).collect()).unwrap_or_default();
     let prefix: Vec<usize> = case["choice_points_only"].as_array().map(|a| a.iter().filter_map(|v| v.as_u64().map(|x| x as usize)).collect()).unwrap_or_default();
     let rt = Arc::new(tokio::runtime::Builder::new_multi_thread().worker_threads(1).enable_all().build().expect("rt"));
@@ -212,7 +233,7 @@ pub fn replay(report: &Report, case: &Value) {
 pub fn run(opts: Opts) -> i32 {
     let report = Report::new("C11", "model_checking", opts.clone());
     report.set_rule(
-        "engine S: every unordered pair (thorough: plus triples at bound 1) of inputs {write a, write b, apply_patch, checkpoint create, read, \
+        "engine S: every unordered pair (thorough: plus triples at bound 1) of inputs {write a, write b, apply_patch, checkpoint create, write with timeout_ms 0 (ends in tool_failed), read, \
          ls} as real run_session futures linked to one thread on one engine; all interleavings at workspace-lock / tool-semaphore / guard \
          and handler span / seq-lock / publish hooks with <=1 (quick) / <=2 (thorough) preemptions; state = distinct executed schedule",
     );
@@ -225,7 +246,7 @@ pub fn run(opts: Opts) -> i32 {
         return report.finish();
     }
     let tier = report.tier();
-    let all = [In::WriteA, In::WriteB, In::Patch, In::CheckpointCreate, In::Read, In::Ls];
+    let all = [In::WriteA, In::WriteB, In::Patch, In::CheckpointCreate, In::WriteTimeout0, In::Read, In::Ls];
     let mut configs: Vec<(Vec<In>, usize)> = Vec::new();
     for (i, a) in all.iter().enumerate() {
         for b in &all[i..] {
